@@ -27,7 +27,9 @@ class P(vlib.Prop):
             "build without cache. (g) several index URLs with ONE ETag value behind one shared Cache (the real cacheTransport.get for two URLs held "
             "concurrently; two repositories, cold cache, overlapping downloads, against the build without cache); update histories under other ETag shapes (140 bytes differing "
             "in the tail, weak validators with characters base32 expands); the real etagFromResponse + cacheFileFromEtag on sets of ETags up to 300 bytes (CNames: model name vs "
-            "real name, no two ETags share a file name). A case is distinct by its term; all are non-trivial.")
+            "real name, no two ETags share a file name). (h) the advertised names of the real APKINDEX/ ordered by their Lstat modification times (three publications in "
+            "every order, a roll-back, an update between HEAD and GET) against the order of the steps that advertise them in the model (CTimes). "
+            "A case is distinct by its term; all are non-trivial.")
     stages = (
         dict(name="cache", cmd="c19", args=lambda t, s: ["-stage", "all"], timeout=1500),
     )
@@ -74,7 +76,9 @@ class P(vlib.Prop):
                   "file's entry — a wrong image offline; repair fixes/C19-F6.patch proved for the model). File names of cached revisions: c19_etag_file_name_injective (for the use "
                   "goextract reads — the whole encoded etag — the name is injective in (directory, etag), any length), c19_etag_name_cut_refuted (HYPOTHETICAL: a cut name, seeded "
                   "C19-8), c19_names_validator_decides; REFUTED for the code of this run: c19_etag_name_length_refuted (finding C19-F8: the name is unbounded in the etag; an ETag "
-                  "over 154 bytes cannot be cached and the build with the cache fails).")
+                  "over 154 bytes cannot be cached and the build with the cache fails). Modification times (Model/CacheTimes.v: the step of the run that last changed a path): "
+                  "c19_offline_opens_last_advertised — every origin, builders, schedule, kills: the index entry the source's choice opens is complete, got its time from the "
+                  "step that advertised it (absent before, untouched since) and was advertised last.")
     level_note = ("trusted: Coq kernel, Go harness/printer and its path abstraction, strace; modelled not verified: the Go text of fetchAndCache / head / get / retrieveAndSaveFile / "
                   "AdvertiseCachedFile / ExpandApk / cachePackage / cachedPackage / PackageData / fetchOffline / flightCache.Do / apkCache.get, golang.org/x/sync/singleflight and "
                   "sync.Once themselves, the host filesystem, gzip/tar/RSA, net/http; "
@@ -86,8 +90,9 @@ class P(vlib.Prop):
                              "headFlight / the sync.Once package memo are ONE hand-written model object (Model/CacheFlight.v: the fast-path Load and the entry into the group are "
                              "separate atomic events) tied by scripted runs of the real objects (export_c19_verif.go) and by the shape goextract reads (c19_flight_code); the "
                              "parsed-index memo of index.go (C04/C08) is not part of it; fetchOffline's choice is modelled on lists of (name, mtime) (pick_newest, "
-                             "c19_offline_code) next to, not inside, the disk model of Model/Cache.v, which has no clocks (there the chosen entry stays a parameter; that the "
-                             "advertised entry downloaded last is the newest is observed on real directories, not proved); gzip/tar/signature parsing of a partial file is not modelled (the model says which "
+                             "c19_offline_code) next to, not inside, the disk model of Model/Cache.v, which has no clocks (there the chosen entry stays a parameter); modification times are a function of RUNS "
+                             "of that model (Model/CacheTimes.v), tied by the real Lstat order of APKINDEX/ (CTimes); that the file system orders two symlink creations "
+                             "like the clock is assumed; gzip/tar/signature parsing of a partial file is not modelled (the model says which "
                              "bytes are returned — a strict prefix of a served body — not whether they parse; the real code fails on every prefix tried)")
 
 PROP = P()
